@@ -38,6 +38,13 @@ fn main() {
             inject::run_inject(&p, &mut out);
             emit(&args, stats_json(&out).set("cmd", J::s("inject")));
         }
+        "inject_big" => {
+            let mut out = engine::RunOut::new();
+            let n = args.u64("n", 150000) as usize;
+            inject::run_inject_big(args.u64("seed", 0), n, &mut out);
+            inject::run_inject_big(args.u64("seed", 0) ^ 1, n / 7 + 1000, &mut out);
+            emit(&args, stats_json(&out).set("cmd", J::s("inject_big")));
+        }
         "replay_inject" => {
             // file: cfg line, `inject <class> <n> <at>` line, then one op per line
             let text = std::fs::read_to_string(args.str("file", "")).expect("read replay file");
